@@ -49,7 +49,8 @@ def main():
                     out_lines.append("| %s | %s | %s | no check claimed | |" % (sid, prop, c))
                     continue
                 t0 = time.time()
-                r = sh(["./check", c, "--tier", "quick"], cwd=HERE, timeout=3600)
+                r = sh(["./check", c, "--tier", "quick"], cwd=HERE, timeout=3600,
+                       env=dict(os.environ, VERIF_EVIDENCE_DIR="/var/tmp/verif-seeded-evidence"))
                 keys = [l.split("key=", 1)[1].split(" ")[0] for l in r.stdout.splitlines() if l.strip().startswith("key=")]
                 verdict = {0: "MISSED (exit 0)", 1: "caught", 2: "inconclusive (exit 2)"}.get(r.returncode, "exit %d" % r.returncode)
                 out_lines.append("| %s | %s | %s | %s | %s | %.0fs |" % (sid, prop, c, verdict, "; ".join(keys[:4])[:160], time.time() - t0))
